@@ -293,6 +293,42 @@ def run_slivers(ctx, exes, cases):
     ctx.cov['sliver_stream'] = st
 
 
+def run_flat(ctx, exes, n):
+    """nearly horizontal edges crossed a fraction of a unit from a scanline that carries another vertex (gen/polys.py
+    gen_flat_precise_case / gen_flat_case): the inputs on which AddNewIntersectNode repairs an intersection point that
+    falls outside the scanbeam (TopX / GetClosestPointOnSegment branches).  x,y equality of the builds on every case;
+    Z accounting (no callback: default Z on new vertices; callback modes) on the general-position ones"""
+    rng = ctx.rng.fork(17)
+    cases = []
+    for i in range(n):
+        S, C, _ = polys.gen_flat_precise_case(rng) if i % 3 else polys.gen_flat_case(rng)
+        if polys.maxabs([S, C]) > (1 << 40):
+            continue
+        cases.append(dict(S=label(rng, S), O=[], C=label(rng, C), cand=True, k=1, regime='flat'))
+    region = vf.oracle_build('region')
+    gp, fails = vf.par_lines(region, ['GENPOS ' + vf.fmt_paths(xy(c['S']) + xy(c['C'])) for c in cases])
+    if fails:
+        raise vf.Infra('oracle GENPOS failed: %s' % fails[0][2])
+    lines, meta = [], []
+    for ci, (c, g) in enumerate(zip(cases, gp)):
+        c['gp'] = g.strip() == '1'
+        for ct in CT:
+            fr = rng.below(4)
+            for cb in (0, 0, 1, 3):
+                dz = 0
+                lines.append('BOOL %d %d %d %d %d %d %d %s %s %s' % (ct, fr, rng.below(2), rng.below(2), cb, dz, rng.below(1 << 30), fmtz(c['S']), fmtz(c['O']), fmtz(c['C'])))
+                meta.append((ci, cb, dz))
+    zo = both(ctx, exes, lines, 'bool64-flat')
+    st = dict(inputs=len(cases), general_position=sum(1 for c in cases if c['gp']), runs=len(lines))
+    if zo:
+        for (ci, cb, dz), l, z in zip(meta, lines, zo):
+            if cases[ci]['gp']:
+                monitor(ctx, cases[ci], cb, dz, l, z)
+            else:
+                monitor(Recorder(ctx), cases[ci], cb, dz, l, z)
+    ctx.cov['flat_stream'] = st
+
+
 # ----------------------------------------------------------------------------- runs
 def both(ctx, exes, lines, op, variants=('plain', 'z')):
     """run the same lines through the builds, compare xy parts; returns the z-build lines"""
@@ -617,6 +653,7 @@ def run(ctx):
     for c, g in zip(sl, gp):
         c['gp'] = g.strip() == '1'
     run_slivers(ctx, exes, sl)
+    run_flat(ctx, exes, (400 if ctx.quick else 8000) * mult)
     run_offset(ctx, exes, (120 if ctx.quick else 3000) * mult)
     run_rect(ctx, exes, (300 if ctx.quick else 6000) * mult)
     ctx.cov['distinct_nontrivial'] = nontrivial
@@ -632,7 +669,7 @@ def run(ctx):
                        'parallel edges (the inputs that reach DoSplitOp), x,y equality judged on all, Z accounting judged on the general-position ones and '
                        'recorded (nongp.*) on the others; entry points: every case through all four Execute overloads (paths / polytree, with and without the open result) '
                        'of Clipper64 and ClipperD x four callback histories on one object (set; other overload first; set, used, removed; set late), '
-                       'ClipperOffset with the callback removed / set late between two Executes; SPLITZ: real DoSplitOp on synthetic rings against the extracted do_split_op_z')
+                       'ClipperOffset with the callback removed / set late between two Executes; flat stream: nearly horizontal edges crossed a fraction of a unit from a scanline carrying another vertex (the out-of-scanbeam repair of AddNewIntersectNode), no callback x2 / fresh tags / silent; SPLITZ: real DoSplitOp on synthetic rings against the extracted do_split_op_z')
     ctx.cov['dosplitop_reachability'] = (
         'ClipperBase::DoSplitOp (FixSelfIntersects) repairs a proper crossing of two output-ring segments separated by one segment. Ring segments '
         'lie on input edges between rounded events (input vertices / crossings, displaced by < 1.5 units); in general position (base/GenPos.v: every '
